@@ -60,47 +60,77 @@ fn to_char_table() {
     kani::cover!(b == 0x9e && c as u32 == 0x20a7, "a 3-byte-UTF-8 entry reachable");
 }
 
-// Compare a decoded string with the per-byte map of to_char, char by char
-// (Chars::next is loop-free; no second String is built).
-fn same_as_map(got: &str, bytes: &[u8]) -> bool {
-    let mut it = got.chars();
-    let mut ok = true;
-    for b in bytes.iter() {
-        ok = ok && it.next() == Some(to_char(*b));
-    }
-    ok && it.next().is_none()
+// `got` is exactly the chars to_char(b0), to_char(b1), ... (Chars::next is loop-free, so the
+// comparison adds no loops; str::chars().count() is avoided: its word-at-a-time loop is
+// intractable for CBMC).
+macro_rules! assert_is_map {
+    ($got:expr, [$($b:expr),*]) => {{
+        let s: &str = &$got;
+        let mut it = s.chars();
+        $( assert!(it.next() == Some(to_char($b))); )*
+        assert!(it.next().is_none());
+    }};
 }
 
-fn check_both(bytes: &[u8]) {
-    let got_slice = bytes.from_cp437();
-    assert!(same_as_map(&got_slice, bytes));
-    let got: String = bytes.to_vec().from_cp437();
-    assert!(same_as_map(&got, bytes));
-    assert!(got.chars().count() == bytes.len());
-}
+// The bounded harnesses enumerate each length with a concrete-length input and fully
+// symbolic bytes, so that every loop in the real std code (Iterator::all, UTF-8 validation,
+// String::extend/collect) unwinds completely under the given #[kani::unwind] with
+// unwinding assertions on.
 
-// @harness from_cp437_vec_len2 bounded bound="all byte strings of length <= 2" props=C19 doc="Vec<u8>::from_cp437() and <&[u8]>::from_cp437() equal the per-byte map of to_char (compared char by char), ASCII fast path included; real std String/iterator/UTF-8 code executed"
+// @harness from_cp437_vec_len2 bounded bound="all byte strings of length <= 2" props=C19 doc="Vec<u8>::from_cp437() equals the per-byte map of to_char (compared char by char), ASCII fast path (String::from_utf8) included; real std String/iterator/UTF-8 code executed"
 #[kani::proof]
 #[kani::unwind(4)]
 fn from_cp437_vec_len2() {
     let a: u8 = kani::any();
     let b: u8 = kani::any();
-    check_both(&[]);
-    check_both(&[a]);
-    check_both(&[a, b]);
+    assert_is_map!(Vec::<u8>::new().from_cp437(), []);
+    assert_is_map!(vec![a].from_cp437(), [a]);
+    assert_is_map!(vec![a, b].from_cp437(), [a, b]);
     kani::cover!(a < 0x80 && b < 0x80, "ASCII fast path, length 2");
     kani::cover!(a < 0x80 && b >= 0x80, "slow path, mixed");
     kani::cover!(a == 0x9e && b == 0xff, "slow path, 3-byte and 2-byte UTF-8");
 }
 
-// @harness from_cp437_vec_len3 bounded tier=thorough bound="all byte strings of length <= 3" props=C19 doc="as from_cp437_vec_len2, byte strings of length exactly 3 (lengths 0..=2 are from_cp437_vec_len2)"
+// @harness from_cp437_slice_len2 bounded bound="all byte strings of length <= 2" props=C19 doc="<&[u8]>::from_cp437() equals the per-byte map of to_char, ASCII fast path (borrowed str::from_utf8) included"
+#[kani::proof]
+#[kani::unwind(4)]
+fn from_cp437_slice_len2() {
+    let a: u8 = kani::any();
+    let b: u8 = kani::any();
+    let e: [u8; 0] = [];
+    let a1 = [a];
+    let a2 = [a, b];
+    assert_is_map!((&e[..]).from_cp437(), []);
+    assert_is_map!((&a1[..]).from_cp437(), [a]);
+    let r = (&a2[..]).from_cp437();
+    assert_is_map!(r, [a, b]);
+    // allocation is avoided exactly on the ASCII path
+    assert!(matches!(r, ::std::borrow::Cow::Borrowed(_)) == (a < 0x80 && b < 0x80));
+    kani::cover!(a < 0x80 && b < 0x80, "ASCII fast path, length 2");
+    kani::cover!(a >= 0x80 && b < 0x80, "slow path, mixed");
+}
+
+// @harness from_cp437_vec_len3 bounded tier=thorough bound="all byte strings of length <= 3" props=C19 doc="Vec<u8>::from_cp437() on every byte string of length exactly 3 (lengths 0..=2: from_cp437_vec_len2)"
 #[kani::proof]
 #[kani::unwind(5)]
 fn from_cp437_vec_len3() {
     let a: u8 = kani::any();
     let b: u8 = kani::any();
     let c: u8 = kani::any();
-    check_both(&[a, b, c]);
+    assert_is_map!(vec![a, b, c].from_cp437(), [a, b, c]);
     kani::cover!(a < 0x80 && b < 0x80 && c < 0x80, "ASCII fast path, length 3");
     kani::cover!(a < 0x80 && b < 0x80 && c >= 0x80, "slow path, last byte non-ASCII");
+}
+
+// @harness from_cp437_slice_len3 bounded tier=thorough bound="all byte strings of length <= 3" props=C19 doc="<&[u8]>::from_cp437() on every byte string of length exactly 3 (lengths 0..=2: from_cp437_slice_len2)"
+#[kani::proof]
+#[kani::unwind(5)]
+fn from_cp437_slice_len3() {
+    let a: u8 = kani::any();
+    let b: u8 = kani::any();
+    let c: u8 = kani::any();
+    let a3 = [a, b, c];
+    assert_is_map!((&a3[..]).from_cp437(), [a, b, c]);
+    kani::cover!(a < 0x80 && b < 0x80 && c < 0x80, "ASCII fast path, length 3");
+    kani::cover!(a >= 0x80, "slow path");
 }
